@@ -659,6 +659,12 @@ func c19RealPath(e *env, r *rng.R, n int) error {
 			ds := genLayout(r, names, false)
 			scrubD13(ds)
 			src := renderFile(dir, ds)
+			// text before the package clause is attached to no declaration: a generated-code or licence header, a build
+			// constraint, a package doc comment that mentions the markers — none of it decides what is a converter
+			src = rng.Pick(r, []string{"", "", "// Code generated by some-template-tool. DO NOT EDIT.\n\n",
+				"// Copyright 2024 The Authors.\n// goverter:converter\n\n", "//go:build !never\n\n",
+				"/* goverter:variables */\n\n// Package docs.\n// goverter:converter\n// goverter:name Nope\n",
+				"// Code generated by protoc-gen-x. DO NOT EDIT.\n// source: x.proto\n\n// Package doc.\n"}) + src
 			j.ds = append(j.ds, ds)
 			j.src = append(j.src, src)
 			if err := os.WriteFile(filepath.Join(root, dir, fmt.Sprintf("f%d.go", k)), []byte(src), 0o644); err != nil {
